@@ -70,6 +70,27 @@ class RegistryListener:
             alarm("C15", "query-changed-the-registry:%s" % qual, {"diff": snapshot.diff(before, after)})
 
 
+class SizesListener:
+    """C11: every FixedArray / Curve that a boundary call returns or was called on satisfies the size invariants."""
+
+    def __call__(self, kind, qual, a, k, payload):
+        if kind == "call":
+            return
+        from .monitors import sizes
+
+        for o in (payload if kind == "return" else None,) + tuple(a[:1]):
+            if o is None:
+                continue
+            try:
+                p = sizes.check_object(o)
+            except Exception:
+                continue
+            if type(o).__name__ in ("FixedArray", "Curve"):
+                STATS["objects_swept"] += 1
+            if p and not qual.endswith(".__init__"):
+                alarm("C11", "size-invariant-broken-after:%s" % qual, {"problem": p, "object": repr(o)[:160]})
+
+
 def pytest_configure(config):
     from . import env, probe
     from .monitors.operand_frozen import OperandMonitor
@@ -86,6 +107,7 @@ def pytest_configure(config):
     _STATE["quantities"].install()
     _STATE["registry"] = RegistryListener()
     probe.subscribe(_STATE["registry"])
+    probe.subscribe(SizesListener())
 
 
 def pytest_runtest_setup(item):
